@@ -171,6 +171,9 @@ func (b *OutboundBreaker) Do(f func() error) (bool, error) {
 	// log.Printf("OutboundBreaker total %d %v", total, closed)
 	if closed {
 		b.counts[0]++
+		// Start the current tick at this call so that the call
+		// is counted for at least the whole interval.
+		b.updated = now
 	}
 	b.Unlock()
 	var err error
@@ -253,15 +256,27 @@ func (b *OutboundBreaker) slide(now time.Time) {
 	// Assumes lock
 	ns := now.Sub(b.updated).Nanoseconds()
 	resolution := b.interval.Nanoseconds() / int64(b.ticks)
-	ticks := int(ns / int64(resolution))
-	if len(b.counts) < ticks {
-		ticks = len(b.counts)
+	elapsed := ns / int64(resolution)
+	if elapsed <= 0 {
+		// Less than a tick has passed.  Do not touch 'updated':
+		// otherwise a caller that polls faster than a tick would
+		// keep the counts from ever sliding.
+		return
 	}
+	if int64(len(b.counts)) <= elapsed {
+		for i := range b.counts {
+			b.counts[i] = 0
+		}
+		b.updated = now
+		return
+	}
+	ticks := int(elapsed)
 	copy(b.counts[ticks:], b.counts)
 	for i := 0; i < ticks; i++ {
 		b.counts[i] = 0
 	}
-	b.updated = now
+	// Advance by whole ticks only so that no time is lost.
+	b.updated = b.updated.Add(time.Duration(elapsed * resolution))
 }
 
 // ComboBreaker is a bunch of Breakers considered as one.
